@@ -51,7 +51,8 @@ Pool == <<
   [name |-> "tx", kind |-> "text",    keys |-> <<>>,            ty |-> "string"],
   [name |-> "td", kind |-> "text",    keys |-> <<"k1">>,        ty |-> "string"],
   [name |-> "tm", kind |-> "gauge",   keys |-> <<>>,            ty |-> "int"],
-  [name |-> "cf", kind |-> "counter", keys |-> <<>>,            ty |-> "float"] >>
+  [name |-> "cf", kind |-> "counter", keys |-> <<>>,            ty |-> "float"],
+  [name |-> "ti", kind |-> "timer",   keys |-> <<>>,            ty |-> "int"] >>
 PoolOfTy(ty) == SelectSeq(Pool, LAMBDA d : d.ty = ty /\ d.name # "tm")
 PoolDim == SelectSeq(Pool, LAMBDA d : d.keys # <<>>)
 
